@@ -541,6 +541,227 @@ def check_nonnegative_bound(ix, rep, rule='R-GUARD-DOM'):
     return 1
 
 
+# ------------------------------------------------------------------------------------------------- R-REMAP (input variables)
+def check_variable_remap(ix, rep, rule='R-REMAP'):
+    """get_value(v) of an input variable is the data supplied for it.  The pastifier delays a variable that stands next to a future operator by
+    wrapping it (`once[h,h](v)`), and its visit() re-points every name of the visited node to the rewritten node: for a Variable that must be
+    the Variable inside the wrapper, not the wrapper -- otherwise get_value('v') reports what was fed h samples ago (-inf at first)"""
+    pcls = ix.find_class('rtamt.pastifier.stl.pastifier', 'StlPastifier')
+    if pcls is None:
+        raise AnalysisError('StlPastifier vanished')
+    vv = ix.resolve_method(pcls, 'visitVariable')
+    vis = ix.resolve_method(pcls, 'visit')
+    if vv is None or vis is None:
+        raise AnalysisError('StlPastifier.visit / visitVariable vanished')
+    rep.analysed(vv)
+    rep.analysed(vis)
+    # can visitVariable return something that is not a Variable?
+    wrappers = [c for c in ast.walk(vv.node) if isinstance(c, ast.Call) and isinstance(c.func, ast.Name) and c.func.id not in ('Variable', 'Interval') and c.func.id[:1].isupper()]
+    remaps = [n for n in ast.walk(vis.node) if (isinstance(n, ast.Call) and isinstance(n.func, ast.Attribute) and n.func.attr == 'update' and 'phi_name_to_node_dict' in ast.unparse(n.func.value))
+              or (isinstance(n, ast.Assign) and any(isinstance(t, ast.Subscript) and 'phi_name_to_node_dict' in ast.unparse(t.value) for t in n.targets))]
+    binds = {}
+    for n in ast.walk(vis.node):
+        if isinstance(n, ast.Assign) and len(n.targets) == 1 and isinstance(n.targets[0], ast.Name) and 'phi_name_to_node_dict' in ast.unparse(n.value):
+            binds[n.targets[0].id] = True
+    remaps += [n for n in ast.walk(vis.node) if isinstance(n, ast.Call) and isinstance(n.func, ast.Attribute) and n.func.attr == 'update' and isinstance(n.func.value, ast.Name) and n.func.value.id in binds]
+    remaps += [n for n in ast.walk(vis.node) if isinstance(n, ast.Assign) and any(isinstance(t, ast.Subscript) and isinstance(t.value, ast.Name) and t.value.id in binds for t in n.targets)]
+    if not wrappers:
+        rep.ok(rule, vv.module.rel, vv.qual, 'variable-name', 'a variable is rewritten to a variable', vv.node.lineno)
+        return 1
+    if not remaps:
+        rep.ok(rule, vis.module.rel, vis.qual, 'variable-name', 'names are not re-pointed by visit()', vis.node.lineno)
+        return 1
+    special = any(isinstance(c, ast.Call) and isinstance(c.func, ast.Name) and c.func.id == 'isinstance' and len(c.args) == 2 and 'Variable' in ast.unparse(c.args[1]) for c in ast.walk(vis.node))
+    if special:
+        rep.ok(rule, vis.module.rel, vis.qual, 'variable-name', 'the name of a variable is re-pointed to the Variable node, not to the delay wrapped round it', vis.node.lineno)
+    else:
+        rep.fail(rule, vis.module.rel, vis.qual, 'variable-name', 'visitVariable may return `%s(...)` (the variable delayed by the remaining look-ahead) and visit() re-points the variable\'s name to whatever '
+                 'it returns: after pastify() get_value(v) of an input variable next to a future operator is the delayed copy -- `out = (eventually[0,2](a >= 1)) and b`: get_value(\'b\') is -inf, -inf, '
+                 'b[0], b[1], ... instead of the data supplied' % wrappers[0].func.id, vis.node.lineno)
+    return 1
+
+
+# ------------------------------------------------------------------------------------------------- R-SEAM (dense-time online, unary operations with a frontier)
+def check_seam(ix, rep, rule='R-SEAM'):
+    """the output of every dense-time online operation ends with a closing sample at the time R of its last input sample, and its next output may start
+    at R again: consecutive chunks *between operators* overlap in the sample on the seam.  The binary operations drop it when they glue the new chunk
+    to their buffers.  An operation that remembers R (`self.X = sample[-1][0]`) and builds influence intervals from consecutive samples has to do the
+    same: otherwise the repeated sample opens a zero-length interval, the operation emits two samples with one time-stamp, and the merge kernel of the
+    next binary operator raises 'Unexpected case in the intersection'"""
+    n = 0
+    for mn, m in sorted(ix.modules.items()):
+        if not (mn.startswith('rtamt.semantics.stl.dense_time.online.') or mn.startswith('rtamt.semantics.arithmetic.dense_time.online.')):
+            continue
+        for c in m.classes.values():
+            f = c.methods.get('update')
+            if f is None or len(f.node.args.args) < 2:
+                continue
+            params = [a.arg for a in f.node.args.args[1:]]
+            frontier = None
+            for st in ast.walk(f.node):
+                if isinstance(st, ast.Assign) and len(st.targets) == 1 and _self_attr(st.targets[0]):
+                    v = ast.unparse(st.value).replace(' ', '')
+                    for p in params:
+                        if v in ('%s[-1][0]' % p, '%s[len(%s)-1][0]' % (p, p)):
+                            frontier = (st.targets[0].attr, p, st)
+            if frontier is None:
+                continue
+            attr, p, st = frontier
+            n += 1
+            rep.analysed(f)
+            ok = False
+            for cmp_ in ast.walk(f.node):
+                if isinstance(cmp_, ast.Compare) and len(cmp_.ops) == 1 and isinstance(cmp_.ops[0], (ast.Eq, ast.LtE)):
+                    l, r = ast.unparse(cmp_.left).replace(' ', ''), ast.unparse(cmp_.comparators[0]).replace(' ', '')
+                    if {'%s[0][0]' % p, 'self.%s' % attr} == {l, r}:
+                        ok = True
+            slot = 'seam:%s' % c.name
+            if ok:
+                rep.ok(rule, m.rel, '%s.update' % c.name, slot, 'a first sample that repeats the time-stamp of the last one received is recognised (compared with self.%s)' % attr, st.lineno)
+            else:
+                rep.fail(rule, m.rel, '%s.update' % c.name, slot, 'update() remembers the time of its last input sample in self.%s but never compares the first sample of the next chunk with it: the sample '
+                         'on the seam, which every upstream operation emits twice (closing sample of one output, first sample of the next), is processed as a new sample of length 0 -- '
+                         '`out = a or historically[0,2](once[0,1](a))`, a = [[0,1],[1,3],[2,2],[3,0.5],[4,4],[5,1],[6,2]] fed as a[:2], a[2:]: RTAMTException "Unexpected case in the '
+                         'intersection"; in one chunk: [[0,1],[1,3],[2,2],[4,4],[5,2],[6,2]]' % attr, st.lineno)
+    return n
+
+
+# ------------------------------------------------------------------------------------------------- R-SHAPE (closing sample of the merge kernel)
+def check_closing_sample_shape(ix, rep, rule='R-SHAPE'):
+    """the online merge kernel returns (samples, closing sample, remainder 1, remainder 2); its callers test the closing sample for emptiness, read its
+    time-stamp and append it to the result.  Every value it is given is therefore a sample `[t, v]` or an empty list -- a scalar (`float('nan')`) is
+    truthy, has no `[0]`, and ends up in the output list as if it were a sample"""
+    m = ix.module('rtamt.semantics.stl.dense_time.online.intersection')
+    f = m.functions.get('intersection')
+    if f is None:
+        raise AnalysisError('online intersection kernel vanished')
+    rets = [r for r in ast.walk(f.node) if isinstance(r, ast.Return) and isinstance(r.value, ast.Tuple) and len(r.value.elts) == 4]
+    names = {r.value.elts[1].id for r in rets if isinstance(r.value.elts[1], ast.Name)}
+    n = 0
+    rep.analysed(f)
+    for st in ast.walk(f.node):
+        if isinstance(st, ast.Assign) and len(st.targets) == 1 and isinstance(st.targets[0], ast.Name) and st.targets[0].id in names:
+            n += 1
+            v = st.value
+            ok = (isinstance(v, ast.List) and len(v.elts) in (0, 2)) or (isinstance(v, ast.Call) and isinstance(v.func, ast.Name) and v.func.id == 'list' and not v.args) \
+                or (isinstance(v, ast.Name))
+            slot = 'closing-sample:%d' % n
+            if ok:
+                rep.ok(rule, m.rel, 'intersection', slot, 'a sample or no sample', st.lineno)
+            else:
+                rep.fail(rule, m.rel, 'intersection', 'closing-sample:scalar', 'the closing sample is set to `%s`, not to a sample or an empty list: when one operand\'s chunk lies wholly before the '
+                         'other\'s (signals fed at different rates) the operation returns the scalar in its output list and the next update raises TypeError -- `out = a + b`: '
+                         'update(a=[[0,3],[1,-1]], b=[]), update(a=[], b=[[2,3],[3,0]]) returns [nan], the third update raises "\'float\' object is not subscriptable"' % ast.unparse(v)[:30], st.lineno)
+    return n
+
+
+# ------------------------------------------------------------------------------------------------- R-EXC (limits of the host language)
+def _handler_types(h):
+    if h.type is None:
+        return {'BaseException'}
+    if isinstance(h.type, ast.Tuple):
+        return {ast.unparse(e).split('.')[-1] for e in h.type.elts}
+    return {ast.unparse(h.type).split('.')[-1]}
+
+
+def _raises_rtamt(body):
+    return any(isinstance(r, ast.Raise) and r.exc is not None and 'RTAMTException' in ast.unparse(r.exc) for s in body for r in ast.walk(s))
+
+
+def check_parse_limits(ix, rep, rule='R-EXC'):
+    """parse() runs a recursive-descent parser and a recursive tree visitor over a text of arbitrary nesting depth, and turns numerals of arbitrary length into
+    numbers and node names: RecursionError (400 nested parentheses), OverflowError (float(int('0x' + 'F'*257))) and ValueError (str() of a 4400-digit bound) are
+    raised by the interpreter, not by rtamt -- the entry rule and the visit of its result have to sit in a try that turns them into RTAMTException"""
+    c = ix.module(AST_MOD).classes.get('AbstractAst')
+    f = c.methods.get('parse') if c is not None else None
+    if f is None:
+        raise AnalysisError('AbstractAst.parse vanished')
+    rep.analysed(f)
+    calls = [x for x in ast.walk(f.node) if isinstance(x, ast.Call) and isinstance(x.func, ast.Attribute)
+             and ((isinstance(x.func.value, ast.Name) and x.func.value.id == 'parser') or (x.func.attr == 'visit' and isinstance(x.func.value, ast.Name) and x.func.value.id == 'self'))
+             and x.func.attr not in ('removeErrorListeners', 'addErrorListener')]
+    if len(calls) < 2:
+        raise AnalysisError('%s: entry rule / visit of its result not found' % f.where)
+    n = 0
+    for kind, wanted in (('depth', ({'RecursionError'}, {'RuntimeError'}, {'Exception'})), ('magnitude', ({'OverflowError', 'ValueError'}, {'ArithmeticError', 'ValueError'}, {'Exception'}))):
+        n += 1
+        ok = True
+        for call in calls:
+            covered = False
+            for t in ast.walk(f.node):
+                if isinstance(t, ast.Try) and any(call is x for b in t.body for x in ast.walk(b)):
+                    caught = set()
+                    for h in t.handlers:
+                        if _raises_rtamt(h.body):
+                            caught |= _handler_types(h)
+                    if any(w <= caught for w in wanted):
+                        covered = True
+            ok = ok and covered
+        slot = 'limits:%s' % kind
+        if ok:
+            rep.ok(rule, f.module.rel, f.qual, slot, '%s of the interpreter are reported as RTAMTException' % ('recursion limits' if kind == 'depth' else 'numeric limits'), f.node.lineno)
+        elif kind == 'depth':
+            rep.fail(rule, f.module.rel, f.qual, slot, 'the recursive-descent parser and the recursive visitor run outside a try that turns RecursionError into RTAMTException: '
+                     '`out = ((((...a...)))) >= 1` with 400 pairs of parentheses, or `out = not not ... (a >= 1)` with 3000 nots, raises RecursionError from parse()', calls[0].lineno)
+        else:
+            rep.fail(rule, f.module.rel, f.qual, slot, 'numerals of the text are turned into numbers and node names outside a try that turns OverflowError / ValueError into RTAMTException: '
+                     '`out = a >= 0x` + 257 F\'s raises OverflowError (float of a 1028-bit int), `always[0,` + 4400 digits + `](a>=1)` raises ValueError (str() of the bound in the node name)',
+                     calls[0].lineno)
+    return n
+
+
+def check_default_unit_domain(ix, rep, rule='R-UNITDOM'):
+    """the default unit is set through the API (`spec.unit = 'ms'`): the setter admits only keys of the unit table, otherwise the first interval of the text
+    raises KeyError from parse()"""
+    n = 0
+    cands = [ix.module(AST_MOD).classes.get('AbstractAst'), ix.find_class('rtamt.syntax.ast.parser.stl.parser_visitor', 'StlAstParserVisitor'),
+             ix.find_class('rtamt.syntax.ast.parser.ltl.parser_visitor', 'LtlAstParserVisitor')]
+    for c in [x for x in cands if x is not None]:
+      for st in c.node.body:
+        if isinstance(st, ast.FunctionDef) and st.name == 'unit' and any(ast.unparse(d).endswith('.setter') for d in st.decorator_list):
+            n += 1
+            param = st.args.args[1].arg
+            ok = False
+            for iff in ast.walk(st):
+                if isinstance(iff, ast.If) and _raises_rtamt(iff.body):
+                    t = ast.unparse(iff.test).replace(' ', '')
+                    if t in ('%snotinself.U' % param, 'not%sinself.U' % param, 'not(%sinself.U)' % param, '%snotinself.U.keys()' % param):
+                        ok = True
+            if ok:
+                rep.ok(rule, c.module.rel, c.name + '.unit', 'default-unit', 'only keys of the unit table are accepted', st.lineno)
+            else:
+                rep.fail(rule, c.module.rel, c.name + '.unit', 'default-unit', 'the setter stores any string: `spec.unit = \'min\'` followed by `out = always[0,2](a>=1)` raises KeyError(\'min\') from '
+                         'parse() (visitInterval reads self.U[unit])', st.lineno)
+    return n
+
+
+def check_nonnegative_bound(ix, rep, rule='R-GUARD-DOM'):
+    """0 <= begin: a literal cannot be negative, a declared constant can (`declare_const('c','int','-5')`, `always[c,2]`)"""
+    stl = ix.find_class('rtamt.syntax.ast.parser.stl.parser_visitor', 'StlAstParserVisitor')
+    f = stl.methods.get('visitInterval') if stl is not None else None
+    if f is None:
+        raise AnalysisError('visitInterval vanished')
+    rep.analysed(f)
+    first = None
+    for st in f.node.body:
+        if isinstance(st, ast.Assign) and isinstance(st.targets[0], ast.Tuple) and 'intervalTime(0)' in ast.unparse(st.value).replace(' ', ''):
+            first = st.targets[0].elts[0].id
+    ok = False
+    for iff in ast.walk(f.node):
+        if isinstance(iff, ast.If) and _raises_rtamt(iff.body):
+            for cmp_ in ast.walk(iff.test):
+                if isinstance(cmp_, ast.Compare) and len(cmp_.ops) == 1:
+                    l, r = ast.unparse(cmp_.left), ast.unparse(cmp_.comparators[0])
+                    if (l == first and r == '0' and isinstance(cmp_.ops[0], ast.Lt)) or (l == '0' and r == first and isinstance(cmp_.ops[0], ast.Gt)):
+                        ok = True
+    if ok:
+        rep.ok(rule, f.module.rel, f.qual, 'begin>=0', 'a negative lower bound is rejected', f.node.lineno)
+    else:
+        rep.fail(rule, f.module.rel, f.qual, 'begin>=0', 'no guard `begin < 0 -> raise RTAMTException`: a bound given by a declared constant may be negative -- declare_const(\'c\',\'int\',\'-5\'), '
+                 '`out = always[c,2](a>=1)` is accepted as always[-5,2]', f.node.lineno)
+    return 1
+
+
 # ------------------------------------------------------------------------------------------------- R-GAPLOOP (one data set, one count)
 def check_offline_counter_restart(ix, rep, rule='R-GAPLOOP'):
     """the offline counter is the number of bad gaps of *the* time column supplied: evaluate() starts it at 0 before it walks the gaps (a second evaluate()
